@@ -83,7 +83,8 @@ type Client struct {
 	PeerEOF bool // the proxy closed it
 	Garbage bool
 	raw     bool
-	Paused  bool // a slow reader: does not read until resumed
+	Paused  bool   // a slow reader: does not read until resumed
+	Held    []byte // the rest of a write of which only the first part has been sent ("send" with kind "hold")
 	writing int32
 }
 
